@@ -303,3 +303,28 @@ PROPS["C01"] = {
         "technique": "bounded symbolic execution + SMT for the identifier kernels; concrete generate-and-compile of the catalogue designs as a by-product",
     },
 }
+
+PROPS["C09"] = {
+    "level": "other",
+    "jobs": [
+        {"name": "codegen", "pkg": "goa.design/goa/v3/codegen", "pkgdir": "codegen", "pkgname": "codegen", "harness_dir": "codegen",
+         "files": ["zz_verif_c09.go"], "extra_decl": ["zz_decl_c09.go"], "extra_replay": ["zz_replay_c09.go"], "quick": r"^VerifC09_", "thorough": r"^VerifC09T?_"},
+        {"name": "openapi", "pkg": "goa.design/goa/v3/http/codegen/openapi", "pkgdir": "http/codegen/openapi", "pkgname": "openapi", "harness_dir": "openapi",
+         "files": ["zz_verif_c09.go"], "quick": r"^VerifC09_", "thorough": r"^VerifC09T?_"},
+        {"name": "expr", "pkg": "goa.design/goa/v3/expr", "pkgdir": "expr", "pkgname": "expr", "harness_dir": "exprpkg",
+         "files": ["zz_verif_c09.go"], "quick": r"^VerifC09_", "thorough": r"^VerifC09T?_"},
+    ],
+    "history_designs": ["d1", "a1", "w1"],
+    "bounds": {"kernels": ["codegen.AttributeTags (4 meta keys, 2 symbolic)", "openapi.TagsFromExpr (5 meta keys, 2 symbolic names)", "expr HostExpr/ServerExpr/APIExpr.Schemes (3 URIs from 5)", "codegen.File.Render SkipExist x exists (file system stubbed)"],
+               "map_orders": "every iteration order of every map ranged over (symbolic permutation)",
+               "by_product": "designs d1, a1, w1: gen;gen in one directory, 3 (quick) / 10 (thorough) further fresh processes, example;edit;example, gen after example - compared byte for byte (concrete)"},
+    "assumptions": [],
+    "outside": ["byte identity of whole generator runs for designs outside the three by-product designs (a concrete experiment, not decidable by a solver)", "range-over-map sites inside large graph-walking generator functions (e.g. openapi v3 responseFromExpr) - covered only by the by-product",
+                "expr.Hash map-order independence is decided under C13"],
+    "explanation": "Partial. Solver-decided: four generator leaf kernels return the same value under every iteration order of the maps they range over (Go's unspecified order is a symbolic permutation in the executor), and one Render step never opens an existing SkipExist file. Concrete by-product (not a solver result, stated as such): for three catalogue designs the real generator is run repeatedly (same directory, fresh processes, gen/example/edit/example/gen histories) and outputs are compared byte for byte; detection of order dependence there is probabilistic in the number of processes.",
+    "manifest": {
+        "text": "Partial. Symbolic map-iteration order: generator leaf kernels (struct tags, OpenAPI tags, scheme lists) are order-insensitive for every permutation; File.Render never writes an existing SkipExist file. Plus a concrete repeat-generation experiment on three designs (byte-identical output across processes and histories, example files preserved).",
+        "note": "Trusted: gosym executor, z3; os.Stat/OpenFile stubbed for the Render step. The by-product is a concrete run, reported separately in the evidence.",
+        "technique": "bounded symbolic execution with symbolic map-iteration permutations + SMT for kernels; concrete repeated generation as by-product",
+    },
+}
